@@ -61,7 +61,11 @@ def gen_mech(rng, acyclic):
                 else:
                     t = ["add", call, ["call", rng.choice(targets), None]]
             table.append([k, t])
-        states.append({"srcs": srcs, "npos": rng.randint(0, len(srcs)), "sentinel": [[gens.q(100 + i), 1]], "table": table})
+        # sentinels: distinguishable outcomes; sometimes unreduced or two-faced (a top-level result must
+        # still come back in lowest terms, also when it is the sentinel alone)
+        sent = rng.choice([[[gens.q(100 + i), 1]], [[gens.q(100 + i), 1]], [[gens.q(100 + i), 4]],
+                           [[gens.q(100 + i), 2], [gens.q(200 + i), 6]]])
+        states.append({"srcs": srcs, "npos": rng.randint(0, len(srcs)), "sentinel": sent, "table": table})
     return {"states": states}
 
 
